@@ -148,12 +148,25 @@ def run_harness(qualname, params_tree, overrides=None):
     rt.EVENTS.clear()
     rt.GHOST.clear()
     undo = [patch_target(k, resolve(v)) for k, v in (overrides or {}).items()]
+    import signal
+
+    class _Watchdog(BaseException):
+        pass
+
+    def _alarm(signum, frame):
+        raise _Watchdog()
+    old_handler = signal.signal(signal.SIGALRM, _alarm)
+    signal.alarm(int(os.environ.get("VF_REPLAY_WATCHDOG_S", "10")))
     try:
         try:
             fn(**kwargs)
         finally:
+            signal.alarm(0)
+            signal.signal(signal.SIGALRM, old_handler)
             for u in reversed(undo):
                 u()
+    except _Watchdog:
+        return {"outcome": "timeout", "detail": "the real code did not return within the replay watchdog (non-termination)", "checks_run": list(rt.CHECKS_RUN)}
     except rt.ContractViolation as e:
         return {"outcome": "violation", "detail": e.name, "checks_run": list(rt.CHECKS_RUN)}
     except rt.AssumptionFailed:
